@@ -1029,6 +1029,10 @@ class LLMRails:
         llm_stats = LLMStats()
         llm_stats_var.set(llm_stats)
 
+        # The event API has no raw request (passthrough mode would otherwise prompt the LLM
+        # with the request of an earlier `generate_async` call made from the same context).
+        raw_llm_request.set(None)
+
         # Compute the new events.
         processing_log = []
         new_events = await self.runtime.generate_events(
